@@ -139,6 +139,7 @@ impl<A> std::ops::IndexMut<usize> for Lane<A> {
     { &mut self.v[i] }
 }
 
+#[derive(Clone, Copy)]
 pub struct Axis(pub usize);
 pub struct Slice { pub start: usize, pub end: Option<usize> }
 impl From<std::ops::RangeTo<usize>> for Slice {
